@@ -33,6 +33,7 @@
 // only representatives of the commands flagged as state builders.
 #include "harness/reflector_l1.h"
 #include "harness/C07_alphabet.h"
+#include "harness/C07_l2.h"
 #include "reflector/FilterSessionFactory.h"
 #include "engines/mutx/mutx.h"
 
@@ -390,6 +391,84 @@ static void RunHistory(const c07::Alphabet & A, int pre, const int * cmds, int n
    c.Outcome(verif::Fmt("%016llx%016llx", (unsigned long long)h.a, (unsigned long long)h.b));
 }
 
+
+// ------------------------------------------------------------------------------------------------ L2: the same history against the socket-stepped server
+// (real socket pairs, real gateways, the real event loop one ServerProcessLoop(0) cycle at a time; X's connection blocked because X does not read)
+static bool L2Step(c07l2::L2World & w, int role, const MessageRef & m) { if (!w.Send(role, m)) return false; w.Pass(2); return true; }
+static std::string L2VictimProbe(c07l2::L2World & w)
+{
+   (void) w.Read(RV);
+   if (!L2Step(w, RV, l1::GetData(l1::Keys("/hV/2/*")))) return "(V could not send)";
+   std::vector<MessageRef> got = w.Read(RV); std::string o;
+   for (size_t i = 0; i < got.size(); i++) { if (got[i]()) AppendMsgCanon(o, *got[i](), 0); o += '\n'; }
+   return o;
+}
+static const char * L2QueueClass(const c07l2::L2World & w)
+{
+   if (w.s[RX]() == NULL || w.s[RX]()->GetGateway()() == NULL) return "queue-empty";
+   const muscle::Queue<MessageRef> & q = w.s[RX]()->GetGateway()()->GetOutgoingMessageQueue();
+   if (q.IsEmpty()) return "queue-empty";
+   for (uint32_t i = 0; i < q.GetNumItems(); i++) if (q[i]() && q[i]()->what == muscle::PR_RESULT_DATAITEMS) return "queued-dataitems";
+   return "queued-other";
+}
+static std::string L2QueueSummary(const c07l2::L2World & w)
+{
+   std::string o; if (w.s[RX]() == NULL || w.s[RX]()->GetGateway()() == NULL) return o;
+   const muscle::Queue<MessageRef> & q = w.s[RX]()->GetGateway()()->GetOutgoingMessageQueue();
+   for (uint32_t i = 0; i < q.GetNumItems() && i < 12; i++) o += (i ? "," : "") + l1::WhatText(q[i]()->what);
+   if (q.GetNumItems() > 12) o += ",...(" + l1::U32(q.GetNumItems()) + ")";
+   return o;
+}
+static void RunHistoryL2(const c07::Alphabet & A, int pre, const int * cmds, int n, mutx::Case & c, bool verbose)
+{
+   Crumb("L2:building-pre-state", "", 0, n);
+   c07l2::L2World w;
+   if (pre == P_PRIV) { c.Fail("infra:l2", "the privileged pre-state is not part of the L2 space"); return; }
+   if (!w.Attach(RX, "hX", 1, true) || !w.Attach(RV, "hV", 2, false) || !w.Attach(RW, "hW", 3, false)) { c.Fail("infra:l2", "socket pair / attach failed"); return; }
+   bool ok = true;
+   ok = ok && L2Step(w, RV, l1::SetData("vx", Rich(1))) && L2Step(w, RV, l1::SetData("vx/y", Rich(2))) && L2Step(w, RV, l1::SetData("vi", Rich(3)));
+   ok = ok && L2Step(w, RV, l1::SetData("vi/a", Rich(4), l1::Flags(muscle::SETDATANODE_FLAG_ADDTOINDEX))) && L2Step(w, RV, l1::SetData("vi/b", Rich(5), l1::Flags(muscle::SETDATANODE_FLAG_ADDTOINDEX)));
+   { MessageRef p = l1::Subscribe("/hX/*/*"); (void) p()->AddInt32("vparam", 5); ok = ok && L2Step(w, RV, p); }
+   ok = ok && L2Step(w, RX, l1::SetData("x", Rich(1))) && L2Step(w, RX, l1::SetData("x/y", Rich(2))) && L2Step(w, RX, l1::SetData("xi", Rich(3)));
+   ok = ok && L2Step(w, RX, l1::SetData("xi/a", Rich(4), l1::Flags(muscle::SETDATANODE_FLAG_ADDTOINDEX))) && L2Step(w, RX, l1::SetData("xi/b", Rich(5), l1::Flags(muscle::SETDATANODE_FLAG_ADDTOINDEX)));
+   if (!ok) { c.Fail("infra:l2", "could not deliver the base commands"); return; }
+   if (!w.BlockOutput(RX)) { c.Fail("infra:l2", "X's connection could not be brought into the blocked state (kernel buffer never filled)"); return; }
+   switch (pre) {
+      case P_SLOW1: ok = L2Step(w, RX, l1::GetData(l1::Keys("/hV/*/vx"))); break;
+      case P_SLOW3: ok = L2Step(w, RX, c07::SubscribeTo("/hV/*/*")) && L2Step(w, RV, l1::SetData("vx", Rich(6))) && L2Step(w, RV, l1::SetData("vi/c", Rich(7), l1::Flags(muscle::SETDATANODE_FLAG_ADDTOINDEX))); break;
+      case P_SELF: ok = L2Step(w, RX, c07::SelfOneItem("/*/*/*")) && L2Step(w, RX, l1::GetDataTrees(l1::Keys("/hV/*/*"), "t1")) && L2Step(w, RX, l1::GetDataTrees(l1::Keys("*"), "t2")); break;
+      default: break;
+   }
+   if (!ok) { c.Fail("infra:l2", "could not deliver the pre-state commands"); return; }
+   (void) w.Read(RV); (void) w.Read(RW);
+   const std::string vProbe = L2VictimProbe(w);
+   if (vProbe.find("/hV/2/vx") == std::string::npos) { c.Fail("infra:l2", "V's GETDATA /hV/2/* is not answered in the pre-state: " + vProbe); return; }
+   if (verbose) printf("L2 pre-state %d: %s\n  X never reads; Messages the server holds for X behind the full socket: [%s]\n", pre, kPreName[pre], L2QueueSummary(w).c_str());
+   int tag = 5000;
+   for (int k = 0; k < n; k++) {
+      const std::string cls = "L2:" + A.ClassOf(cmds[k]) + ":" + L2QueueClass(w);
+      if (verbose) { printf("X writes command %d of %d to its socket: %s   [class %s]\n", k + 1, n, A.Name(cmds[k]).c_str(), cls.c_str()); fflush(stdout); }
+      Crumb(cls, "client-write", k + 1, n);
+      if (!w.Send(RX, A.Build(cmds[k]))) { c.Fail("l2-input-not-accepted:" + cls, "the server stopped reading X's socket: command " + l1::U32((uint32_t)k + 1) + " could not be written"); return; }
+      Crumb(cls, "event-loop-pass", k + 1, n);
+      w.Pass(2); ADD(loopPasses, 2); ADD(commands, 1);
+      if (verbose) { printf("  two event-loop cycles returned; held for X: [%s]\n", L2QueueSummary(w).c_str()); fflush(stdout); }
+      Crumb(cls, "witness-ping", k + 1, n);
+      (void) w.Read(RW); ++tag;
+      if (!L2Step(w, RW, l1::Ping(tag))) { c.Fail("no-pong:" + cls, "W could not write its PING"); return; }
+      { std::vector<MessageRef> got = w.Read(RW); int pongs = 0;
+        for (size_t i = 0; i < got.size(); i++) if (got[i]()->what == muscle::PR_RESULT_PONG) { int32_t t = 0; if (got[i]()->FindInt32("tag", t).IsOK() && t == tag) pongs++; }
+        if (pongs != 1) { c.Fail("no-pong:" + cls, "after X's command " + l1::U32((uint32_t)k + 1) + " W's PING over its socket was answered by " + l1::U32((uint32_t)pongs) + " PONGs within two event-loop cycles"); return; } }
+      ADD(pongs, 1);
+      Crumb(cls, "victim-getdata", k + 1, n);
+      const std::string probe = L2VictimProbe(w);
+      if (probe != vProbe) { c.Fail("victim-not-served:" + cls, "after X's command " + l1::U32((uint32_t)k + 1) + " V's GETDATA /hV/2/* over its socket is answered differently than before; before:\n" + vProbe + "now:\n" + probe); return; }
+      ADD(victimProbes, 1);
+      if (!w.Attached(RV) || !w.Attached(RW)) { c.Fail("session-lost:" + cls, "V or W is no longer attached"); return; }
+   }
+   c.Outcome(verif::Fmt("%u held for X, X attached=%d", (unsigned)w.Queued(RX), (int)w.Attached(RX)));
+}
+
 // ------------------------------------------------------------------------------------------------ history spaces
 struct Prefix { int pre; int cmd[2]; int len; };
 typedef std::vector<int> Hist;   // (pre, c1, ..)
@@ -415,7 +494,7 @@ struct Driver {
 
    std::string Desc(int pre, const int * cmds, int n) const
    {
-      std::string o = verif::Fmt("{\"pre\": %d, \"cmds\": [", pre);
+      std::string o = verif::Fmt("{\"c07\": 1, \"pre\": %d, \"cmds\": [", pre);   // (the flat replay reader swallows the first key of a nested object)
       for (int k = 0; k < n; k++) o += verif::Fmt("%s%d", k ? "," : "", cmds[k]);
       o += "], \"pre_state\": " + verif::JStr(kPreName[pre]) + ", \"history\": [";
       for (int k = 0; k < n; k++) o += (k ? ", " : "") + verif::JStr("X: " + A.Name(cmds[k]));
@@ -519,7 +598,8 @@ int main(int argc, char ** argv)
       if (pre < 0 || pre >= NUM_PRE || n == 0) { fprintf(stderr, "replay file has no pre/cmds\n"); return 3; }
       for (int i = 0; i < n; i++) if (cmds[i] < 0 || cmds[i] >= A.Size()) { fprintf(stderr, "command index out of range\n"); return 3; }
       mutx::Runner R(args, res, d.Str("part")); R.SetCpuLimit(D.cpuLimit);
-      mutx::CaseFn fn = [&](size_t, mutx::Case & c) { RunHistory(A, pre, cmds, n, c, NULL, true); };
+      const bool l2 = (d.Str("level") == "L2");
+      mutx::CaseFn fn = [&](size_t, mutx::Case & c) { if (l2) RunHistoryL2(A, pre, cmds, n, c, true); else RunHistory(A, pre, cmds, n, c, NULL, true); };
       mutx::DescFn desc = [&](size_t) { return D.Desc(pre, cmds, n); };
       return R.ReplayIndex((size_t)d.Int("index"), fn, desc);
    }
@@ -556,32 +636,36 @@ int main(int argc, char ** argv)
    const bool thorough = args.Thorough();
    const double budget = args.deadline * 0.9;
    std::vector<int> all; for (int c = 0; c < A.Size(); c++) all.push_back(c);
+   std::vector<Hist> deadDepth1;   // for the L2 confirmation
 
    // ---- depth 1: every pre-state x every command
    Space s1; s1.part = "depth1"; s1.depth = 1; s1.last = all;
    for (int pre = 0; pre < NUM_PRE; pre++) { Prefix p; p.pre = pre; p.len = 0; p.cmd[0] = p.cmd[1] = 0; s1.prefixes.push_back(p); }
-   // per pre-state: the lowest-numbered command of each distinct ABSTRACT post-state class (see ServerState(abstract)), among the commands
-   // flagged as state builders (reps) and among all commands (allReps); commands that leave the exact canonical state unchanged, and the class
-   // of the pre-state itself, are left out (their extensions are the depth-1 cases)
-   std::vector<std::vector<int> > reps(NUM_PRE), allReps(NUM_PRE);
+   // per pre-state: the lowest-numbered command of each distinct ABSTRACT post-state class (see ServerState(abstract)) among the reduced
+   // alphabet (redReps), among the commands flagged as state builders (sbReps) and among all commands (allReps); commands that leave the
+   // exact canonical state unchanged, and the class of the pre-state itself, are left out (their extensions are the depth-1 cases)
+   std::vector<std::vector<int> > redReps(NUM_PRE), sbReps(NUM_PRE), allReps(NUM_PRE);
    uint64_t distinctPost = 0, unchanged = 0;
-   if (args.WantPart("depth1") || args.WantPart("depth2")) {
-      CaseRec * rec = D.Run(s1, args.t0 + budget * (thorough ? 0.1 : 0.2), true);
+   {
+      CaseRec * rec = D.Run(s1, args.t0 + budget * (thorough ? 0.1 : 0.3), true);
       verif::Part & p = res.parts.back();
       p.rule = verif::Fmt("every history (pre-state, one command) over %d pre-states x ", (int)NUM_PRE) + AlphabetText(A) + "; " + kOracleText;
       { std::string pn = "["; for (int i = 0; i < NUM_PRE; i++) { if (i) pn += ", "; pn += verif::JStr(kPreName[i]); } p.extra["pre_states"] = pn + "]"; }
       for (int pre = 0; pre < NUM_PRE; pre++) {
          // post-state of "no command": computed here, in the parent
          mutx::Case c0; uint64_t own = 0, ownAbs = 0; RunHistory(A, pre, NULL, 0, c0, &own, false, &ownAbs);
-         std::set<uint64_t> seenB, seenA; seenB.insert(ownAbs); seenA.insert(ownAbs);
+         std::set<uint64_t> seenR, seenB, seenA, allPost; seenR.insert(ownAbs); seenB.insert(ownAbs); seenA.insert(ownAbs);
          for (int c = 0; c < A.Size(); c++) {
             const CaseRec & r = rec[(size_t)pre * A.Size() + c];
+            if (r.status == 1) { int cc = c; deadDepth1.push_back(MakeHist(pre, &cc, 1)); }
             if (r.status != 2) continue;
+            allPost.insert(r.post);
             if (r.post == own) { unchanged++; continue; }
-            if ((A.Flags(c) & c07::SB) && seenB.insert(r.abs).second) reps[pre].push_back(c);
+            const int fl = A.Flags(c);
+            if ((fl & c07::RED) && seenR.insert(r.abs).second) redReps[pre].push_back(c);
+            if ((fl & c07::SB) && seenB.insert(r.abs).second) sbReps[pre].push_back(c);
             if (seenA.insert(r.abs).second) allReps[pre].push_back(c);
          }
-         std::set<uint64_t> allPost; for (int c = 0; c < A.Size(); c++) if (rec[(size_t)pre * A.Size() + c].status == 2) allPost.insert(rec[(size_t)pre * A.Size() + c].post);
          distinctPost += allPost.size();
       }
       p.states = distinctPost;
@@ -589,18 +673,37 @@ int main(int argc, char ** argv)
       p.extra["commands_leaving_the_pre_state_unchanged"] = verif::Fmt("%llu", (unsigned long long)unchanged);
       Driver::FreeRecs(rec, s1.Size());
    }
+   if (args.kv.count("reps")) {
+      for (int pre = 0; pre < NUM_PRE; pre++) {
+         printf("pre %d: distinct abstract post-state classes: %d among the reduced alphabet, %d among the builders, %d among all commands\n", pre, (int)redReps[pre].size(), (int)sbReps[pre].size(), (int)allReps[pre].size());
+         for (size_t i = 0; i < sbReps[pre].size(); i++) printf("   %5d %s\n", sbReps[pre][i], A.Name(sbReps[pre][i]).c_str());
+      }
+      return 0;
+   }
 
-   if (args.kv.count("reps")) { for (int pre = 0; pre < NUM_PRE; pre++) { printf("pre %d: %d representatives among the builders, %d among all commands\n", pre, (int)reps[pre].size(), (int)allReps[pre].size()); for (size_t i = 0; i < reps[pre].size(); i++) printf("   %5d %s\n", reps[pre][i], A.Name(reps[pre][i]).c_str()); } return 0; }
    // ---- depth 2: (pre-state, representative first command, every second command)
-   const int pre2[] = { P_IDLE, P_SLOW3, P_SELF, P_SLOW1, P_PRIV }; const int npre2 = thorough ? 5 : 3;
    if (args.WantPart("depth2")) {
       Space s2; s2.part = "depth2"; s2.depth = 2; s2.last = all; std::string counts;
-      for (int k = 0; k < npre2; k++) { const int pre = pre2[k]; counts += verif::Fmt("%s%d:%d", k ? ", " : "", pre, (int)reps[pre].size()); for (size_t i = 0; i < reps[pre].size(); i++) { Prefix p; p.pre = pre; p.len = 1; p.cmd[0] = reps[pre][i]; p.cmd[1] = 0; s2.prefixes.push_back(p); } }
-      CaseRec * rec = D.Run(s2, args.t0 + budget * (thorough ? 0.75 : 1.0), false);
+      for (int pre = 0; pre < NUM_PRE; pre++) {
+         std::vector<int> first;
+         if (!thorough) { if (pre == P_IDLE || pre == P_SLOW3 || pre == P_SELF) first = redReps[pre]; }
+         else {
+            first = (pre == P_SLOW3 || pre == P_SELF) ? allReps[pre] : sbReps[pre];
+            if (pre == P_IDLE || pre == P_SLOW3 || pre == P_SELF) for (size_t i = 0; i < redReps[pre].size(); i++) if (std::find(first.begin(), first.end(), redReps[pre][i]) == first.end()) first.push_back(redReps[pre][i]);   // superset of the quick tier
+            std::sort(first.begin(), first.end());
+         }
+         counts += verif::Fmt("%s%d:%d", pre ? ", " : "", pre, (int)first.size());
+         for (size_t i = 0; i < first.size(); i++) { Prefix p; p.pre = pre; p.len = 1; p.cmd[0] = first[i]; p.cmd[1] = 0; s2.prefixes.push_back(p); }
+      }
+      CaseRec * rec = D.Run(s2, args.t0 + budget * (thorough ? 0.8 : 0.92), false);
       verif::Part & p = res.parts.back();
-      p.rule = verif::Fmt("every history (pre-state, first command, second command): pre-states {%s}; first command = the lowest-numbered representative of each distinct canonical post-state (server dump incl. X's undrained queue) reached at depth 1 by %s, "
-                          "commands that leave the pre-state unchanged excluded (their extensions are the depth-1 cases) [representatives per pre-state: %s]; second command = every one of the ", thorough ? "0,1,2,3,4" : "0,2,3", thorough ? "any command" : "a command flagged as state builder", counts.c_str())
-             + AlphabetText(A) + "; a history is not executed when a proper prefix or a proper suffix of it already died from the same pre-state (counted in extra); " + kOracleText;
+      p.rule = std::string("every history (pre-state, first command, second command); first command = one representative (the lowest-numbered command) of each distinct abstract post-state class reached at depth 1 "
+                           "(abstract class = node tree with payloads, subscriber tables and indices + X's subscriptions, default route, flags and limits + X's undrained queue with DATAITEMS / DATATREES / INDEXUPDATED Messages in full and every other queued Message by its what code; "
+                           "commands that leave the exact canonical state unchanged and the class of the pre-state itself are left out: their extensions are the depth-1 cases), taken ")
+             + (thorough ? "among ALL commands for the pre-states 2 and 3 (the ones with a full queue) and among the commands flagged as state builders for the pre-states 0, 1 and 4, plus the quick tier's representatives"
+                         : "among the reduced alphabet (listed in part reduced-depth2 of the thorough tier) for the pre-states 0, 2 and 3")
+             + " [first commands per pre-state: " + counts + "]; second command = every one of the " + AlphabetText(A)
+             + "; a history is not executed when a proper prefix or a proper suffix of it already died from the same pre-state (counted in extra); " + kOracleText;
       Driver::FreeRecs(rec, s2.Size());
    }
 
@@ -609,15 +712,46 @@ int main(int argc, char ** argv)
       const std::vector<int> & Rd = A.reducedCmds;
       Space r2; r2.part = "reduced-depth2"; r2.depth = 2; r2.last = Rd;
       for (int pre = 0; pre < NUM_PRE; pre++) for (size_t i = 0; i < Rd.size(); i++) { Prefix p; p.pre = pre; p.len = 1; p.cmd[0] = Rd[i]; p.cmd[1] = 0; r2.prefixes.push_back(p); }
-      CaseRec * rec = D.Run(r2, args.t0 + budget * 0.8, false);
+      CaseRec * rec = D.Run(r2, args.t0 + budget * 0.83, false);
       std::string names; for (size_t i = 0; i < Rd.size(); i++) names += (i ? " | " : "") + A.Name(Rd[i]);
       res.parts.back().rule = verif::Fmt("every history (pre-state, a, b) with a, b from the reduced alphabet of %d commands, %d pre-states (layer 2 of the depth-3 space; collects the dead prefixes); reduced alphabet: ", (int)Rd.size(), (int)NUM_PRE) + names + "; same pruning rule; " + kOracleText;
       Driver::FreeRecs(rec, r2.Size());
       Space r3; r3.part = "reduced-depth3"; r3.depth = 3; r3.last = Rd;
       for (int pre = 0; pre < NUM_PRE; pre++) for (size_t i = 0; i < Rd.size(); i++) for (size_t j = 0; j < Rd.size(); j++) { Prefix p; p.pre = pre; p.len = 2; p.cmd[0] = Rd[i]; p.cmd[1] = Rd[j]; r3.prefixes.push_back(p); }
-      rec = D.Run(r3, args.t0 + budget, false);
+      rec = D.Run(r3, args.t0 + budget * 0.97, false);
       res.parts.back().rule = verif::Fmt("every history (pre-state, a, b, c) with a, b, c from the reduced alphabet of %d commands (listed in part reduced-depth2), %d pre-states; a history is not executed when a proper prefix or a proper suffix of it already died from the same pre-state; ", (int)Rd.size(), (int)NUM_PRE) + kOracleText;
       Driver::FreeRecs(rec, r3.Size());
+   }
+
+   // ---- L2: a fixed list of histories + the first histories that died at depth 1, against the socket-stepped server
+   if (args.WantPart("l2-sockets")) {
+      std::vector<Hist> hs;
+      static const char * one[] = { "JETTISONRESULTS keys=* filter=what-in-range(A)", "JETTISONRESULTS keys=* filter=what-out-of-range(R)", "JETTISONRESULTS keys=*", "JETTISONRESULTS", "JETTISONDATATREES", "GETDATA keys=*", "GETDATATREES keys=*",
+                                    "REMOVEDATA keys=*", "BATCH x101 [GETDATA /hV/*/*]", "SETPARAMETERS reply-encoding=zlib6", "SETPARAMETERS SUBSCRIBE:v***(300 chars)", "CLIENT2CLIENT keys=/*/*", NULL };
+      static const char * two[][2] = { { "GETDATA /hV/*/*", "JETTISONRESULTS keys=/hV/*/vx filter(A)" }, { "GETDATA /hV/*/*", "JETTISONRESULTS keys=/hV/*/vx filter(R)" }, { "BATCH x1 [GETDATA /hV/*/*, GETDATA /hV/*/*]", "JETTISONRESULTS keys=* filter=what-in-range(A)" },
+                                       { "SETPARAMETERS reply-encoding=zlib6", "GETDATA keys=*" }, { NULL, NULL } };
+      const int l2pre[3] = { P_IDLE, P_SLOW3, P_SELF };
+      for (int k = 0; k < 3; k++) {
+         for (int i = 0; one[i]; i++) { int c = A.FindByName(one[i]); if (c < 0) { res.infra_errors.push_back(std::string("L2 list: no command named ") + one[i]); return res.Write(args); } hs.push_back(MakeHist(l2pre[k], &c, 1)); }
+         for (int i = 0; two[i][0]; i++) { int cc[2] = { A.FindByName(two[i][0]), A.FindByName(two[i][1]) }; if (cc[0] < 0 || cc[1] < 0) { res.infra_errors.push_back(std::string("L2 list: no command named ") + two[i][0] + " / " + two[i][1]); return res.Write(args); } hs.push_back(MakeHist(l2pre[k], cc, 2)); }
+      }
+      const size_t fixedCount = hs.size(); int added = 0;
+      for (size_t i = 0; i < deadDepth1.size() && added < 6; i++) if (deadDepth1[i][0] != P_PRIV && std::find(hs.begin(), hs.end(), deadDepth1[i]) == hs.end()) { hs.push_back(deadDepth1[i]); added++; }
+      mutx::Runner R(args, res, "l2-sockets"); R.SetCpuLimit(D.cpuLimit); R.SetDeadline(args.t0 + budget); R.SetMaxPerKey(1);
+      Counters before; memcpy(&before, (const void *)g_cnt, sizeof(before));
+      mutx::CaseFn fn = [&](size_t i, mutx::Case & c) { RunHistoryL2(A, hs[i][0], &hs[i][1], (int)hs[i].size() - 1, c, false); };
+      mutx::DescFn desc = [&](size_t i) { std::string d = D.Desc(hs[i][0], &hs[i][1], (int)hs[i].size() - 1); return d.substr(0, d.size() - 1) + ", \"level\": \"L2\"}"; };
+      g_crumbs = true; verif::Part & p = R.Run(hs.size(), fn, desc); g_crumbs = false;
+      p.bound_completed = 2;
+      p.transitions = g_cnt->commands - before.commands; p.evaluations = (g_cnt->pongs - before.pongs) + (g_cnt->victimProbes - before.victimProbes);
+      p.extra["event_loop_cycles_after_attacker_commands"] = verif::Fmt("%llu", (unsigned long long)(g_cnt->loopPasses - before.loopPasses));
+      p.extra["histories_from_the_fixed_list"] = verif::Fmt("%llu", (unsigned long long)fixedCount);
+      p.extra["histories_that_died_at_depth1_replayed_here"] = verif::Fmt("%d", added);
+      p.rule = verif::Fmt("confirmation at the socket level, not an enumeration of its own: %d fixed histories (pre-states 0, 2, 3 x 12 one-command and 4 two-command histories around the edit-the-queue handlers, deep batches, reply encoding, long patterns) "
+                          "plus the first (at most 6) histories whose process died at depth 1, each replayed against the same real ReflectServer with every session attached over a real AF_UNIX socket pair (TCPSocketDataIO + MessageIOGateway on both ends), "
+                          "the server advanced by ServerProcessLoop(0) cycles only; X never reads and its connection is first filled (tiny kernel buffers + 32 KB PINGs) so that results pile up in the server-side gateway queue; after every command of X: two event-loop cycles must return, "
+                          "W's PING written to its socket must be answered by one PONG read from that socket, V's GETDATA of its own nodes must be answered as before, V and W still attached; forked worker, CPU-time watchdog, ASan/UBSan", (int)fixedCount);
+      fprintf(stderr, "C07 l2-sockets: histories=%llu outcomes=%llu exhaustive=%d part-wall=%.1fs total-wall=%.1fs\n", (unsigned long long)hs.size(), (unsigned long long)p.distinct_outcomes, (int)p.exhaustive, p.wall_s, verif::NowS() - args.t0);
    }
 
    res.observations.push_back("X holds no KICK privilege in any pre-state (a privileged KICK legitimately ends other sessions); the privileged pre-state grants only the ban/unban privileges and routes ADDBANS/REMOVEBANS/ADDREQUIRES/REMOVEREQUIRES to a real FilterSessionFactory");
